@@ -64,6 +64,7 @@ NAMES = {
                 "\U0001d431", "x", "False", "none", "namespace", "loop", "x", "caller"] * 2,
 }
 PREDICTED = ("ascii", "unicode", "pykw")
+EXT_TOKS = {"break", "continue", "do", "trans", "endtrans", "pluralize", "debug"}
 
 
 # --------------------------------------------------------------------------
@@ -83,7 +84,7 @@ RUNS = {
     "quick": [
         ("expr", dict(mode="skeletons", profile="expr", maxtok=5, invariants=SK_INV), ()),
         ("stmt", dict(mode="skeletons", profile="stmt", maxtok=12, invariants=SK_INV), ()),
-        ("forms", dict(mode="skeletons", profile="forms", maxtok=20, maxmut=1, mutset="none", invariants=SK_INV), ()),
+        ("forms", dict(mode="skeletons", profile="forms", maxtok=20, maxmut=1, mutset="tiny", invariants=SK_INV), ()),
         ("strings", dict(mode="strings", maxlen=3, invariants=("C01_PlainPrefixClosed",)), ()),
     ],
     "thorough": [
@@ -115,6 +116,8 @@ _W = {}
 def _init_worker(legend):
     _W["legend"] = legend
     _W["envs"] = {}
+    import warnings
+    warnings.simplefilter("ignore")  # SyntaxWarnings of compile() about odd but valid generated code
     signal.signal(signal.SIGPROF, _alarm)
 
 
@@ -242,7 +245,9 @@ def plan(case, seed_rng, tier):
         out.append((ENV_CONFIGS[seed_rng % 7], "special", "compiles-or-syntax-error"))
     else:
         out.append(("default", "ascii", "compiles-or-syntax-error"))
-        out.append((ENV_CONFIGS[1 + seed_rng % 6], ("alias", "ascii", "special")[seed_rng % 3], "compiles-or-syntax-error"))
+        # tokens that are tags of an extension are tried where the extension is loaded
+        second = "ext" if EXT_TOKS.intersection(case["toks"]) else ENV_CONFIGS[1 + seed_rng % 6]
+        out.append((second, ("alias", "ascii", "special")[seed_rng % 3], "compiles-or-syntax-error"))
     return out
 
 
